@@ -170,7 +170,7 @@ def convert_to_lut(op, lut_values, lut_name):
     assert ifm.dtype == ofm.dtype
     lut_tensor = create_lut_tensor(op.name + "_values", lut_values, ofm.dtype)
     op.set_activation_lut(lut_tensor)
-    op.set_ifm_ofm_shapes()
+    op.set_ifm_shapes()
     DebugDatabase.add_optimised(op, op)
     return op
 
